@@ -38,6 +38,7 @@ type Prog struct {
 	noRetCache      map[*ssa.Function]int // 0 unknown, 1 returns, 2 no-return, 3 in progress
 	reachCache      map[*ssa.Function]map[*ssa.Function]bool
 	callersOf       map[*ssa.Function][]ssa.CallInstruction
+	wparams         map[*ssa.Function][]int
 	pathClassMemo   map[ssa.Value]string
 	roleNames       map[*types.Var]string
 	rolesResolved   bool
